@@ -430,12 +430,12 @@ func (e *Evaluator) evalMapLiteral(m *parser.MapLiteral) (value, error) {
 }
 
 func (e *Evaluator) evalFunccall(funcCall *parser.FuncCall) (value, error) {
+	verifEv("Call", funcCall.Name)
 	args, err := e.evalExprList(funcCall.Arguments)
 	if err != nil {
 		return nil, err
 	}
 	builtin, ok := e.builtins.Funcs[funcCall.Name]
-	verifEv("Call", funcCall.Name)
 	if ok {
 		val, err := builtin.Func(e.scope, args)
 		if funcCall.Name == "test" {
